@@ -34,6 +34,9 @@ type hcase struct {
 	Reqs    []wire.Req `json:"requests,omitempty"`
 	Streams [][]byte   `json:"streams,omitempty"`
 	Note    string     `json:"note,omitempty"`
+	// End is how the client leaves: "" = half-close and read everything; "close-unread" = close without
+	// reading a byte (the kernel resets the connection under the server's answers); "rst" = reset
+	End string `json:"end,omitempty"`
 }
 
 var numRe = regexp.MustCompile(`0x[0-9a-fA-F]+|[0-9]+`)
@@ -149,6 +152,17 @@ func (b *c04Batch) runCase(c hcase) bool {
 				return
 			}
 			defer cl.Close()
+			if c.End != "" {
+				// a client that walks away: the server's answers meet a closed or reset connection, every
+				// write error path of every handler is taken
+				cl.SendRaw(s)
+				if c.End == "rst" {
+					cl.Reset()
+				} else {
+					cl.Close()
+				}
+				return
+			}
 			done := make(chan struct{})
 			go func() { cl.SendRaw(s); cl.CloseWrite(); close(done) }()
 			// drain whatever comes (bounded) until the server closes. The client has half-closed, so
@@ -395,6 +409,56 @@ func c04Hostile() []hcase {
 		for _, l := range []wire.Op{wire.OpRDE, wire.OpRDE2, wire.OpReadDir} {
 			add(fmt.Sprintf("OPENDIR %s then %s", vp, l), wire.P(wire.OpOpenDir, vp), wire.Bare(l), wire.Bare(l), wire.P(wire.OpStat, "/"))
 			add(fmt.Sprintf("OPENDIR / then OPENDIR %s then %s", vp, l), wire.P(wire.OpOpenDir, "/"), wire.P(wire.OpOpenDir, vp), wire.Bare(l), wire.P(wire.OpStat, "/"))
+		}
+	}
+	// clients that walk away without reading: 64 pipelined copies of one request (after the opens that
+	// give it something to answer with), then close-with-unread-data or RST
+	rep := func(n int, pre []wire.Req, r wire.Req) []wire.Req {
+		out := append([]wire.Req{}, pre...)
+		for i := 0; i < n; i++ {
+			out = append(out, r)
+		}
+		return out
+	}
+	type ab struct {
+		name string
+		pre  []wire.Req
+		r    wire.Req
+	}
+	abandon := []ab{
+		{"RDE without opendir", nil, wire.Bare(wire.OpRDE)},
+		{"RDE2 without opendir", nil, wire.Bare(wire.OpRDE2)},
+		{"READDIR without opendir", nil, wire.Bare(wire.OpReadDir)},
+		{"RDE past the end", []wire.Req{wire.P(wire.OpOpenDir, "/emptydir")}, wire.Bare(wire.OpRDE)},
+		{"RDE2 past the end", []wire.Req{wire.P(wire.OpOpenDir, "/emptydir")}, wire.Bare(wire.OpRDE2)},
+		{"RDE of dir", []wire.Req{wire.P(wire.OpOpenDir, "/dir")}, wire.Bare(wire.OpRDE)},
+		{"RDE2 of dir", []wire.Req{wire.P(wire.OpOpenDir, "/dir")}, wire.Bare(wire.OpRDE2)},
+		{"OPENDIR+READDIR", nil, wire.P(wire.OpOpenDir, "/dir")},
+		{"READDIR after OPENDIR", []wire.Req{wire.P(wire.OpOpenDir, "/dir")}, wire.Bare(wire.OpReadDir)},
+		{"STAT", nil, wire.P(wire.OpStat, "/file.bin")},
+		{"STAT missing", nil, wire.P(wire.OpStat, "/nope")},
+		{"OPEN", nil, wire.P(wire.OpOpen, "/file.bin")},
+		{"OPEN missing", nil, wire.P(wire.OpOpen, "/nope")},
+		{"OPEN image", nil, wire.P(wire.OpOpen, "/***DVD***/dir")},
+		{"OPEN encrypted", nil, wire.P(wire.OpOpen, "/PS3ISO/enc.iso")},
+		{"READ", []wire.Req{wire.P(wire.OpOpen, "/big.bin")}, wire.Read(150000, 10)},
+		{"READ without open", nil, wire.Read(10, 0)},
+		{"READCRIT", []wire.Req{wire.P(wire.OpOpen, "/big.bin")}, wire.Crit(150000, 10)},
+		{"READCD", []wire.Req{wire.P(wire.OpOpen, "/big.bin")}, wire.CD(1, 8)},
+		{"READ image", []wire.Req{wire.P(wire.OpOpen, "/***DVD***/dir")}, wire.Read(100000, 30000)},
+		{"DIRSIZE", nil, wire.P(wire.OpDirSize, "/dir")},
+		{"DIRSIZE missing", nil, wire.P(wire.OpDirSize, "/nope")},
+		{"CREATE", nil, wire.P(wire.OpCreate, "/w/ab.bin")},
+		{"WRITE", []wire.Req{wire.P(wire.OpCreate, "/w/ab2.bin")}, wire.Write([]byte("0123456789"))},
+		{"WRITE without create", nil, wire.Write([]byte("0123456789"))},
+		{"MKDIR", nil, wire.P(wire.OpMkdir, "/w/abd")},
+		{"RMDIR", nil, wire.P(wire.OpRmdir, "/w/abd")},
+		{"DELETE", nil, wire.P(wire.OpDelete, "/w/nope")},
+		{"unknown opcode", nil, wire.Bare(wire.Op(0x1299))},
+	}
+	for _, a := range abandon {
+		for _, end := range []string{"close-unread", "rst"} {
+			cs = append(cs, hcase{Family: "abandoned", Name: a.name + " x64 then " + end, Reqs: rep(64, a.pre, a.r), End: end})
 		}
 	}
 	add("OPEN dir then reads", wire.P(wire.OpOpen, "/dir"), wire.Read(100, 0), wire.P(wire.OpOpen, "/dir"), wire.Crit(10, 0))
